@@ -68,6 +68,10 @@ def coq_expr(toks):
         if t in cmp:
             return "(ECmp %s %s %s)" % (cmp[t], a, b), r
         return "(ECall %s %s %s)" % (call[t], a, b), r
+    if t.startswith("bnd"):
+        a, r = coq_expr(r)
+        b, r = coq_expr(r)
+        return "(EBound %s %s %s)" % (cmp[t[3:]], a, b), r
     if t == "neg":
         a, r = coq_expr(r)
         return "(ENeg %s)" % a, r
@@ -161,10 +165,10 @@ def run(ctx):
         # exponents beyond +-300 make the extracted model slow (10^2000 in unary-recursive N arithmetic);
         # the thorough tier goes to +-2000
         args += ["--tier", "quick", "--n", "9000", "--nlit", "5000", "--nstr", "600", "--maxdigits", "300",
-                 "--maxexp", "300", "--corpus", corpus]
+                 "--maxexp", "300", "--bounds", "1", "--corpus", corpus]
     else:
         args += ["--tier", "thorough", "--n", "200000", "--nlit", "80000", "--nstr", "10000", "--maxdigits", "600",
-                 "--maxexp", "2000", "--corpus", corpus]
+                 "--maxexp", "2000", "--bounds", "1", "--corpus", corpus]
     t0 = time.time()
     vlib.run(args, timeout=3000)
     phase["harness_run"] = round(time.time() - t0, 1)
@@ -268,7 +272,7 @@ def run(ctx):
         "audit_files": proof["audit_files"],
         "evaluations": len(cases),
         "distinct_nontrivial": nontrivial,
-        "rule": "cases: E = CUE expressions over number literals (+ - * / unary -, the six comparisons, div mod quo rem; exhaustive small ints/floats, boundaries 2^63 2^64 10^33..10^36 +-1, random operands up to 300 (thorough 600) digits and exponents up to +-300 (thorough +-2000), constructed rounding ties at digit 35, nested expressions of depth 2-3); L = byte strings given to literal.ParseNum (every string over a small alphabet up to length 3-5, mutated valid literals, signed literals, random bytes); LV = grammar-directed valid literals (all bases, '_', K..P / Ki..Pi, fractions, exponents incl. the apd limit) also compiled through cue.Context; S = string / bytes comparisons. non-trivial: E not an error and some operand >= 2 digits; L/LV accepted literal of >= 3 bytes; S different operands; counted over distinct case lines",
+        "rule": "cases: E = CUE expressions over number literals (+ - * / unary -, the six comparisons, div mod quo rem; exhaustive small ints/floats, boundaries 2^63 2^64 10^33..10^36 +-1, MIXED int/float comparisons (all six operators, both orders, both signs, and as bound validation `a & <b`) around 2^52 2^53 2^63 2^64 10^k (thorough: k=15..41 and more powers of two) with +-1 / +-0.5 and several float representations, sub-float64 tiny floats against 0 and 1, random operands up to 300 (thorough 600) digits and exponents up to +-300 (thorough +-2000), constructed rounding ties at digit 35, nested expressions of depth 2-3); L = byte strings given to literal.ParseNum (every string over a small alphabet up to length 3-5, mutated valid literals, signed literals, random bytes); LV = grammar-directed valid literals (all bases, '_', K..P / Ki..Pi, fractions, exponents incl. the apd limit) also compiled through cue.Context; S = string / bytes comparisons. non-trivial: E not an error and some operand >= 2 digits; L/LV accepted literal of >= 3 bytes; S different operands; counted over distinct case lines",
         "samples": samples,
         "case_kinds": kinds,
         "outcomes_by_kind": outcome,
@@ -306,6 +310,10 @@ def render(case):
                 a, r = go(r)
                 b, r = go(r)
                 return "%s(%s, %s)" % (t, a, b), r
+            if t.startswith("bnd"):
+                a, r = go(r)
+                b, r = go(r)
+                return "(%s & %s(%s))" % (a, t[3:], b), r
             if t == "neg":
                 a, r = go(r)
                 return "(-%s)" % a, r
